@@ -31,6 +31,7 @@ ATTR_LITERAL_ALLOWED = {
 def run(ctx):
     chk, fx = ctx.chk, ctx.facts
     chk.explanation = EXPLANATION
+    r4_values_stored_unchanged(chk, fx)
     chk.assumptions += ["quick-xml 0.31: BytesText::new and Attribute::from((&str,&str)) escape < > & ' \"; Attribute::from((&[u8],&[u8])) and Attribute{..} store the value verbatim"]
     impls = [i for i in fx.item_list if i["kind"] == "Impl" and i.get("trait") == "netconf::message::WriteXml" and "::tests::" not in i["qdef"] and "tests::" not in i.get("self", "")]
     chk.floor("C10 WriteXml impls", len(impls), 30)
@@ -330,3 +331,42 @@ def r3_delimiter(ctx, chk, fx):
             chk.instance("C10/R2", "%s builds an Attribute literal (checked as a raw sink)" % R.short_fn(name), name, loc_of(t.get("sp")), holds=bool(lit),
                          key="C10/R2 as_attribute-form %s" % T.strip_generics(name))
     chk.floor("C10 AsAttribute impls", n, 9)
+
+
+# ---------------------------------------------------------------------------------------------
+PRESERVING_CONV = ("RiStr::new", "RiString::as_slice", "AsRef::as_ref", "Into::into", "From::from", "ToOwned::to_owned", "ToString::to_string", "String::as_str",
+                   "Deref::deref", "Clone::clone", "Borrow::borrow", "Arc::from", "Box::from", "str::to_string", "str::to_owned", "String::from", "Cow::into_owned",
+                   "TryFrom::try_from", "TryInto::try_into", "str::as_ref", "UriStr::new", "RiStr::as_str", "RiString::as_str")
+
+
+def r4_values_stored_unchanged(chk, fx):
+    """'.. and carry the caller's values unchanged': a validating constructor of a value that is later serialised stores what it was
+    given, not a rewritten form of it.  Url::try_new (the <url> of edit-config / copy-config / delete-config / validate): on every Ok
+    path the stored string is the parameter itself through representation-preserving conversions only — no normalisation, case
+    folding, trimming, decoding."""
+    from vlib import absint as A
+    name = "netconf::message::rpc::operation::Url::try_new"
+    if name not in fx.thir:
+        raise F.AnchorLost("Url::try_new not found")
+    chk.analysed(name)
+    n = 0
+    for p in A.Interp(fx, crates=("netconf",)).explore(name):
+        if p.end == "abort" or not (A.is_res(p.ret) and p.ret[2] == "Ok"):
+            continue
+        url = A.payload0(p.ret)
+        for f, v in (url[3] if url[0] == "adt" else ()):
+            n += 1
+            x, chain = v, []
+            for _ in range(12):
+                if x[0] == "term" and x[2]:
+                    chain.append(T.short(x[1], 2))
+                    x = x[2][0]
+                elif x[0] in ("payload", "field"):
+                    x = x[1]
+                else:
+                    break
+            foreign = [c for c in chain if c not in PRESERVING_CONV]
+            ok = x[0] == "sym" and x[1].startswith("param:") and not foreign
+            chk.instance("C10/R4", "Url::try_new stores the string it was given (%s)" % (" <- ".join(chain) or "as is"), name, loc_of(fx.thir[name].get("sp")), holds=ok,
+                         key="C10/R4 Url::try_new stores-a-rewritten-value", detail=None if ok else "the <url> sent is %s of the caller's URL" % (foreign or [A.vstr(x)[:40]]))
+    chk.floor("C10/R4 Ok paths of Url::try_new", n, 1)
